@@ -31,6 +31,9 @@ LEVEL_TEXT = (
     "centres (potential_translation_invariant on lists of points / Gaussians, potential_translation_invariant_arrays on arbitrary argument arrays "
     "whose data fit their shapes, malformed ones included), no centres -> zeros of shape (N,), all coefficients zero -> zeros, m coincident "
     "identical functions -> m times one, a point on the centre of an s function in any frame -> c 2 sqrt(alpha/pi). "
+    "Round 6: linear in the coefficients (potential_homogeneous: every coefficient times k, any real k, gives k times every value), additive over a split of the "
+    "function list (potential_additive_split), no coefficient skipped (potential_no_coefficient_skipped); the translator carries leading `if <test>: continue` guards "
+    "of a loop body and np.isclose(c, 0.0), so a loop that drops small coefficients is regenerated (not refused) and the bridge potential_gen_eq_model fails on it. "
     "Hand-written: the NumPy/Python primitives (Model/CoulombPy.lean), the corrected p formula, the documented densities; "
     "tied by correspondence; every generated definition is also run at Float by the driver and compared with the function it came from."
 )
@@ -85,6 +88,10 @@ THEOREMS = [
     "GridVerif.C17.potential_zero_coefficients",
     "GridVerif.C17.potential_coincident_centres",
     "GridVerif.C17.potential_at_centre",
+    # round 6: linear in the coefficients, additive over the functions, no coefficient skipped
+    "GridVerif.C17.potential_homogeneous",
+    "GridVerif.C17.potential_additive_split",
+    "GridVerif.C17.potential_no_coefficient_skipped",
 ]
 RULE = (
     "correspondence: coulomb_gaussian_s / coulomb_gaussian_p x normalized in {True, False} on (alpha, r) with alpha "
